@@ -11,7 +11,7 @@ for m in sorted(glob.glob(os.path.join(here, "seeded", "*", "meta.json"))):
   if d.get("expect") == "silent":
     label = {"miss": "NOT caught (documented miss)",
              "allowed": "not flagged: the behaviour is allowed",
-             "equivalent": "not flagged: equivalent on the repaired tree",
+             "equivalent": "not flagged: harmless / equivalent on the repaired tree",
              "unreachable": "not flagged: not reachable with real sockets",
              }[d.get("silent_kind", "miss")]
     needs += " -- **" + label + "**: " + \
